@@ -65,8 +65,11 @@ def part_a(rec, li, n, seed, only=None):
                         view.setflags(write=False)
                         da = xr.DataArray(view, dims=["b", S.dimname("X", fr)], name="q")
                     if g is None:
-                        g = build_grid({"X": layout}, {"X": n}, gkw)
-                        if supply in ("grid", "gridmap", "default"):
+                        if supply == "grid+othermap":
+                            g = build_grid({"X": layout, "Y": ("center", "left")}, {"X": n, "Y": 2}, gkw)
+                        else:
+                            g = build_grid({"X": layout}, {"X": n}, gkw)
+                        if supply in ("grid", "gridmap", "default", "grid+othermap"):
                             # an earlier call with dict-spelled per-call settings must not stick to the Grid
                             try:
                                 g.cumsum(da, "X", to=to, boundary={"X": "extend" if rule != "extend" else "fill"}, fill_value={"X": 77.0})
@@ -97,6 +100,16 @@ def part_a(rec, li, n, seed, only=None):
                         if float(fv).is_integer() and abs(fv) < 100:
                             m_ = base.shape[1]
                             small = {"int8": (np.arange(m_) % 3 * 50 + 30).astype(np.int8)[None, :].repeat(2, 0), "bool": (np.arange(2 * m_).reshape(2, m_) % 3 > 0)}
+                            # 64-bit integers beyond 2**53: the sum is exact, not merely to double precision
+                            big_ = (np.arange(2 * m_, dtype=np.int64).reshape(2, m_) * 2 + 2 ** 55 + 1) * np.array([[1], [-1]], dtype=np.int64)
+                            try:
+                                rb_ = g.cumsum(xr.DataArray(big_, dims=da.dims), "X", **kw)
+                                rec.calls += 1
+                                eb_ = S.ref_cumsum(big_.astype(object), fr, to, n, rule, int(fv))
+                                if [int(x) for x in np.asarray(rb_.values).ravel()] != [int(x) for x in eb_.ravel()]:
+                                    rec.violation("single-axis", "values:int64-beyond-2**53", dict(case, dtype="int64-large"), eb_.astype(float), rb_.values)
+                            except Exception as e:
+                                rec.violation("single-axis", "raise:int64-large:" + exc_sig(e), dict(case, dtype="int64-large"), "array", f"{type(e).__name__}: {e}"[:200])
                             for nm_, arr_ in small.items():
                                 try:
                                     rs_ = g.cumsum(xr.DataArray(arr_, dims=da.dims), "X", **kw)
